@@ -347,6 +347,8 @@ COLUMN_EXTRAS = [
     "CONSTRAINT pk PRIMARY KEY (a, b)", "CONSTRAINT fk FOREIGN KEY (a) REFERENCES o (k) ON DELETE NO ACTION", "CONSTRAINT u UNIQUE (a)",
     "CONSTRAINT ck CHECK (a > 1 AND b < 5)", "PRIMARY KEY (a)", "UNIQUE KEY uk (a, b)", "FOREIGN KEY (a) REFERENCES o (k)", "INDEX ix (a)", "KEY k1 (b)",
     "PRIMARY KEY CLUSTERED (a ASC)", "LIKE other_t", "PERIOD FOR SYSTEM_TIME (a, b)",
+    # characters no token rule knows, at places where the parser is in the middle of an expression / at the end of a statement
+    "c1 int CHECK (c1 ^ 2 > 3)", "c1 int DEFAULT 2 ^ 3", "c1 varchar(5) DEFAULT 'it's'",
 ]
 STATEMENTS = [
     "CREATE TABLE IF NOT EXISTS s.t (a int);", "CREATE OR REPLACE TABLE t (a int);", "CREATE TEMPORARY TABLE t (a int);", "CREATE EXTERNAL TABLE t (a int);",
@@ -359,6 +361,7 @@ STATEMENTS = [
     "ALTER TABLE t ADD CONSTRAINT fk FOREIGN KEY (a) REFERENCES o (k);", "ALTER TABLE t ADD PRIMARY KEY (a);", "ALTER TABLE t ADD UNIQUE (a, b);", "ALTER TABLE t ADD CONSTRAINT c CHECK (a > 0);",
     "ALTER TABLE t ADD COLUMN z int NOT NULL;", "ALTER TABLE t ADD z varchar(3) DEFAULT 'x';", "ALTER TABLE t DROP COLUMN a;", "ALTER TABLE t RENAME COLUMN a TO b;",
     "ALTER TABLE t MODIFY a bigint;", "ALTER TABLE t ALTER COLUMN a int NOT NULL;", "ALTER TABLE t ADD CONSTRAINT df DEFAULT 0 FOR a;", "ALTER TABLE ONLY s.t ADD CONSTRAINT pk PRIMARY KEY (a);",
+    "DROP TABLE t ^;", "CREATE SEQUENCE q START WITH 1 ^;", "CREATE TABLE t (a int) ( b );",
     "COMMENT ON TABLE t IS 'x';", "CREATE TABLE t (a int) ; CREATE TABLE u (b int)", "CREATE TABLE t (a int,);", "CREATE TABLE (a int);", "CREATE TABLE t a int);", "CREATE TABLE t (a int",
 ]
 SOUP = ["CREATE", "TABLE", "ALTER", "ADD", "DROP", "COLUMN", "INDEX", "UNIQUE", "PRIMARY", "KEY", "FOREIGN", "REFERENCES", "CONSTRAINT", "CHECK", "DEFAULT", "NOT", "NULL",
